@@ -208,3 +208,37 @@ A(M("c15-p-atom", "C15", TT, '        p = next_residue_candidate.find_atom("P")\
 A(M("c15-v2-hetatm-prefilter", ["C15", "C09"], P2, "    for line in lines:\n        record_type = line[:6].strip()\n", "    for line in lines:\n        if not line.startswith((\"ATOM \", \"HETATM \", \"MODEL \")):\n            continue\n        record_type = line[:6].strip()\n", "pdb-record-filter"))
 A(M("c15-backbone", "C15", T2, '"beta": [("P", 0), ("O5\'", 0), ("C5\'", 0), ("C4\'", 0)],', '"beta": [("P", 0), ("O5\'", 0), ("C5\'", 0), ("C3\'", 0)],', "backbone-atoms"))
 A(M("c15-chi-order", "C15", TT, "        torsion = self.__chi_purine()\n        if math.isnan(torsion):\n            return self.__chi_pyrimidine()\n        return torsion", "        torsion = self.__chi_pyrimidine()\n        if math.isnan(torsion):\n            return self.__chi_purine()\n        return torsion", "chi-dispatch"))
+
+# ---------------------------------------------------------------- C09
+A(M("c09-serial-width", "C09", P2, 'serial = str(atom_data.get("serial", 0)).rjust(5)', 'serial = str(atom_data.get("serial", 0)).rjust(6)', "writer-layout"))
+A(M("c09-gap", "C09", P2, '{chain_id}{res_seq}{icode}   "', '{chain_id}{res_seq}{icode}  "', "writer-layout"))
+A(M("c09-reader-x", "C09", P2, '"y": line[38:46].strip(),', '"y": line[39:47].strip(),', ["writer-reader-columns", "pdb-slices-v2", "pdb-slices-agree"]))
+A(M("c09-swap-attrs", "C09", P2, '            "label_comp_id",  # resName\n            "label_asym_id",  # chainID', '            "label_asym_id",  # chainID\n            "label_comp_id",  # resName', "field-map-pdb-to-cif"))
+A(M("c09-precision", "C09", P2, "x = f\"{atom_data.get('x', 0.0):8.3f}\"", "x = f\"{atom_data.get('x', 0.0):8.2f}\"", "numeric-format"))
+A(M("c09-cif-precision", "C09", P2, "f\"{float(row['x']):.3f}\",  # Cartn_x", "f\"{float(row['x']):.2f}\",  # Cartn_x", "numeric-format"))
+A(M("c09-drop-ter-before-endmdl", "C09", P2, "                if last_chain_id is not None:\n                    ter_serial = str(last_serial + 1).rjust(5)\n                    ter_res_name = last_res_info[2].strip().rjust(3)\n                    ter_chain_id = last_chain_id\n                    ter_res_seq = str(last_res_info[0]).rjust(4)\n                    ter_icode = last_res_info[1] if last_res_info[1] else \"\"\n\n                    ter_line = f\"TER   {ter_serial}      {ter_res_name} {ter_chain_id}{ter_res_seq}{ter_icode}\"\n                    buffer.write(ter_line.ljust(80) + \"\\n\")\n                buffer.write(\"ENDMDL\\n\")", "                buffer.write(\"ENDMDL\\n\")", ["record-order", "ter-line"]))
+A(M("c09-charge-abs", "C09", P2, "charge_fmt = f\"{abs(charge_int)}{'+' if charge_int > 0 else '-'}\"", "charge_fmt = f\"{charge_int}{'+' if charge_int > 0 else '-'}\"", "charge-format"))
+A(M("c09-cif-source-item", "C09", P2, '"element": pdb_element,\n                "charge": pdb_charge,\n                "model": int(row.get("pdbx_PDB_model_num", 1)),', '"element": pdb_element,\n                "charge": pdb_charge,\n                "model": int(row.get("pdbx_PDB_model_num", 1)),', kind="silent"))
+A(M("c09-cif-label-first", "C09", P2, 'str(row.get("auth_asym_id", row.get("label_asym_id")))', 'str(row.get("label_asym_id", row.get("auth_asym_id")))', "field-map-cif-to-pdb"))
+A(M("c09-bfactor-item", "C09", P2, 'float(row.get("B_iso_or_equiv", 0.0))', 'float(row.get("occupancy", 0.0))', "field-map-cif-to-pdb"))
+A(M("c09-model-line", "C09", P2, 'buffer.write(f"MODEL     {current_model_num:>4}\\n")', 'buffer.write(f"MODEL    {current_model_num:>4}\\n")', "model-line"))
+A(M("c09-ter-serial", "C09", P2, '        ter_serial = str(last_serial + 1).rjust(5)\n        ter_res_name = last_res_info[2].strip().rjust(3)\n        ter_chain_id = last_chain_id\n        ter_res_seq = str(last_res_info[0]).rjust(4)\n        ter_icode = last_res_info[1] if last_res_info[1] else ""\n\n        ter_line = f"TER   {ter_serial}      {ter_res_name}', '        ter_serial = str(last_serial + 1).rjust(5)\n        ter_res_name = last_res_info[2].strip().rjust(3)\n        ter_chain_id = last_chain_id\n        ter_res_seq = str(last_res_info[0]).rjust(4)\n        ter_icode = last_res_info[1] if last_res_info[1] else ""\n\n        ter_line = f"TER   {ter_serial}     {ter_res_name}', "ter-line"))
+A(M("c09-no-ter-at-chain", "C09", P2, "if last_chain_id is not None and current_chain_id != last_chain_id:", "if last_chain_id is not None and current_chain_id != last_chain_id and False:", "record-order"))
+A(M("c09-charge-verbatim", "C09", P2, "                if charge_val[1] == \"+\":\n                    charge_val = charge_val[0]", "                if charge_val[1] == \"+\":\n                    charge_val = charge_val", "value-domain"))
+A(M("c09-icode-placeholder", "C09", P2, 'icode_val = "." if pd.isna(row.get("iCode")) else str(row["iCode"])', 'icode_val = "-" if pd.isna(row.get("iCode")) else str(row["iCode"])', "null-agreement"))
+
+# ---------------------------------------------------------------- C10
+A(M("c10-limit-one-place", "C10", P2, 'pd.to_numeric(df["id"], errors="coerce").max() > 99999', 'pd.to_numeric(df["id"], errors="coerce").max() > 999999', "fit-test"))
+A(M("c10-len-df", "C10", P2, 'pd.to_numeric(df["id"], errors="coerce").max() > 99999', 'len(df) > 99999', "fit-test"))
+A(M("c10-runtimeerror", "C10", P2, '        raise ValueError(\n            f"Cannot fit to PDB: Number of unique chains', '        raise RuntimeError(\n            f"Cannot fit to PDB: Number of unique chains', "only-valueerror"))
+A(M("c10-return-copy", "C10", P2, "    if can_write_pdb(df):\n        return df\n", "    if can_write_pdb(df):\n        return df.copy()\n", "fits-returns-same"))
+A(M("c10-store-x", "C10", P2, "    df_fitted[icode_col] = None  # Insertion codes are now redundant\n", "    df_fitted[icode_col] = None  # Insertion codes are now redundant\n    df_fitted[\"occupancy\"] = 1.0\n", "frame-condition"))
+A(M("c10-alphabet-short", "C10", P2, "string.ascii_uppercase + string.ascii_lowercase + string.digits", "string.ascii_uppercase + string.ascii_lowercase", "chain-alphabet"))
+A(M("c10-drop-feasibility", "C10", P2, "    if num_chains > max_pdb_chains:\n        raise ValueError(\n            f\"Cannot fit to PDB: Number of unique chains ({num_chains}) exceeds PDB limit ({max_pdb_chains}).\"\n        )\n", "", ["feasibility", "chain-map"]))
+A(M("c10-residue-skip", "C10", P2, "        all_new_res_maps[new_chain_id] = residue_mapping\n", "        all_new_res_maps[new_chain_id] = residue_mapping\n        if len(residue_mapping) < 2:\n            continue\n", "residue-map"))
+A(M("c10-fillna-category", "C10", P2, '"iCode": df[icode_col].astype(object).fillna("")', '"iCode": df[icode_col].fillna("")', "dtype-typestate"))
+A(M("c10-rename-dup", "C10", P2, '        "auth_comp_id": "resName",\n    }', '        "auth_comp_id": "resName",\n        "label_comp_id": "resName",\n    }', "rename-injective"))
+A(M("c10-rename-missing", "C10", P2, '        "label_alt_id": "altLoc",\n', "", "rename-coverage"))
+A(M("c10-serial-ter", "C10", P2, "            current_serial += 1  # Increment for TER line\n", "            pass\n", "serial-renumber"))
+A(M("c10-resseq-limit", "C10", P2, "max_pdb_residue = 9999", "max_pdb_residue = 99999", "limits"))
+A(M("c10-write-input", "C10", P2, "    df_fitted = df.copy()\n", "    df[chain_col] = df[chain_col].astype(object)\n    df_fitted = df.copy()\n", "input-untouched"))
